@@ -38,6 +38,8 @@ func c19Corpus() []corr.Case {
 		// Mkdir (+Chmod): fresh, existing, missing parent, below a file
 		mk("mkdir "+hx("/d"), "mkdir "+hx("/d"), "mkdir "+hx("/x/y"), "create "+hx("/d/f"), "mkdir "+hx("/d/f/z"), "mkdir "+hx("/d/f"), "stat "+hx("/d"), "snapshot"),
 		// Write / WriteString / Seek / Truncate / Read / ReadAt around the end of the file
+		// io.Copy into a handle (a reader that hands its last bytes out together with io.EOF)
+		mk("create "+hx("/f"), "readfrom 0 0102030405", "readfrom 0 06", "seek 0 1 0", "readfrom 0 5a5b", "readat 0 20 0", "hstat 0", "close 0", "stat "+hx("/f"), "snapshot"),
 		mk("create "+hx("/f"), "write 0 0102030405", "writestring 0 0607", "seek 0 2 2", "write 0 5a", "readat 0 20 0", "trunc 0 3", "trunc 0 6",
 			"seek 0 0 0", "read 0 4", "read 0 4", "read 0 4", "readat 0 3 100", "readat 0 0 100", "seek 0 -1 0", "seek 0 -9 1", "seek 0 0 5", "hstat 0", "stat "+hx("/f")),
 		// handles survive rename and remove; Stat/Truncate through the handle go by name
@@ -409,7 +411,11 @@ func c19Random(r *corr.Rand, tier string) []corr.Case {
 					L += int64(len(b))
 				case m < 24:
 					b := payload(rr, rr.Intn(7))
-					add(fmt.Sprintf("writestring %d %s", h, corr.Hex(b)))
+					if len(b) > 0 && rr.Chance(40) {
+						add(fmt.Sprintf("readfrom %d %s", h, corr.Hex(b))) // io.Copy into the handle (never empty: an empty copy makes no call at all)
+					} else {
+						add(fmt.Sprintf("writestring %d %s", h, corr.Hex(b)))
+					}
 					L += int64(len(b))
 				case m < 42:
 					add(fmt.Sprintf("writeat %d %s %d", h, corr.Hex(payload(rr, rr.Intn(7))), offNear(rr, L)))
